@@ -5,6 +5,7 @@
 package c05_controller
 
 import (
+	"context"
 	"fmt"
 	"os"
 	"path/filepath"
@@ -36,6 +37,10 @@ type Case struct {
 	Mode     int32   `json:"mode"`
 	Outcomes []int   `json:"outcomes"`
 	FailSide string  `json:"transition_error_side,omitempty"` // "", alpha, beta: that endpoint's Transition returns an error
+	// PauseSide: "", alpha, beta: the session is paused while that endpoint's
+	// Transition call is running; the call returns its (generated) outcomes
+	// once the controller's context has been cancelled.
+	PauseSide string `json:"pause_during_transition_side,omitempty"`
 }
 
 type script struct {
@@ -46,6 +51,40 @@ type script struct {
 	outcomes []int
 	failSide string
 	partial  bool
+	// pause scenario
+	pauseSide   string
+	pause       func()
+	pauseFired  bool
+	cancelSeen  bool
+	pauseResult chan error
+}
+
+// onTransition implements the pause scenario: the first Transition call on
+// the chosen side starts Pause in the background and waits until the
+// controller's context is cancelled.
+func (s *script) onTransition(ctx context.Context, session string, alpha bool) {
+	s.mu.Lock()
+	side := "beta"
+	if alpha {
+		side = "alpha"
+	}
+	fire := s.phase == 2 && s.pauseSide == side && !s.pauseFired
+	if fire {
+		s.pauseFired = true
+	}
+	pause := s.pause
+	s.mu.Unlock()
+	if !fire {
+		return
+	}
+	go pause()
+	select {
+	case <-ctx.Done():
+		s.mu.Lock()
+		s.cancelSeen = true
+		s.mu.Unlock()
+	case <-time.After(20 * time.Second):
+	}
 }
 
 func (s *script) scan(session string, alpha bool, ancestor *core.Entry, full bool) (bool, *core.Snapshot, error, bool) {
@@ -151,9 +190,33 @@ func (r *runner) run(c *Case) (violation string, nontrivial bool, class string) 
 	// Phase 2.
 	r.sc.mu.Lock()
 	r.sc.phase, r.sc.failSide = 2, c.FailSide
+	pauseResult := make(chan error, 1)
+	r.sc.pauseSide, r.sc.pauseFired, r.sc.cancelSeen = c.PauseSide, false, false
+	r.sc.pause = func() { pauseResult <- r.env.Pause(id) }
 	r.sc.mu.Unlock()
 	ancChanges, alphaT, betaT, _ := core.Reconcile(anc, A, B, mode)
 	flushErr := r.env.Flush(id, 10*time.Second)
+	paused := false
+	if c.PauseSide != "" {
+		r.sc.mu.Lock()
+		fired, seen := r.sc.pauseFired, r.sc.cancelSeen
+		r.sc.mu.Unlock()
+		if fired {
+			select {
+			case err := <-pauseResult:
+				if err != nil {
+					return fmt.Sprintf("pause during transition fails: %v", err), true, ""
+				}
+			case <-time.After(30 * time.Second):
+				return "", false, "pause-did-not-return"
+			}
+			if !seen {
+				return "", false, "pause-not-noticed-during-transition"
+			}
+			paused = true
+			flushErr = nil
+		}
+	}
 	st := r.env.State(id)
 	if st != nil && sess.Halted(st.Status) {
 		return "", false, "halted-for-safety"
@@ -210,17 +273,20 @@ func (r *runner) run(c *Case) (violation string, nontrivial bool, class string) 
 	if partial {
 		class = "partial-outcome"
 	}
+	if paused {
+		class = "paused-during-transition"
+	}
 	if c.FailSide != "" {
 		class = "endpoint-transition-error"
 	}
-	return "", (partial || c.FailSide != "") && len(alphaT)+len(betaT) > 0, class
+	return "", (partial || c.FailSide != "" || paused) && len(alphaT)+len(betaT) > 0, class
 }
 
 func TestScriptedController(t *testing.T) {
 	if ev.ReplayPath() != "" {
 		t.Skip()
 	}
-	rec := ev.New(t, prop, "scripted-controller", "rapid: (ancestor, alpha, beta) triples by mutation of a common base x 4 modes, served to the real controller by scripted endpoints (registered through the public protocol-handler map): a warm-up cycle installs the ancestor, then the endpoints report alpha/beta and answer Transition with generated per-transition outcomes (nothing / Old / New / any partial removal or creation) or a whole-call error on one side; the archive read back from disk must be valid, synchronizable-only and equal to ancestor-changes-then-reported-outcomes; non-trivial: some outcome is partial or an endpoint's Transition failed, with >= 1 transition")
+	rec := ev.New(t, prop, "scripted-controller", "rapid: (ancestor, alpha, beta) triples by mutation of a common base x 4 modes, served to the real controller by scripted endpoints (registered through the public protocol-handler map): a warm-up cycle installs the ancestor, then the endpoints report alpha/beta and answer Transition with generated per-transition outcomes (nothing / Old / New / any partial removal or creation) or a whole-call error on one side, or the session is paused while one side's Transition call is running (the call returns its outcomes after the controller's context was cancelled); the archive read back from disk must be valid, synchronizable-only and equal to ancestor-changes-then-reported-outcomes; non-trivial: some outcome is partial, an endpoint's Transition failed or the session was paused during the transition, with >= 1 transition")
 	base := t.TempDir()
 	env, err := sess.NewEnv(filepath.Join(base, "data"))
 	if err != nil {
@@ -228,7 +294,7 @@ func TestScriptedController(t *testing.T) {
 	}
 	defer env.Close()
 	sc := &script{}
-	sess.Install(nil, &sess.Hooks{Scan: sc.scan, Transition: sc.transition, SkipStaging: true})
+	sess.Install(nil, &sess.Hooks{Scan: sc.scan, Transition: sc.transition, OnTransition: sc.onTransition, SkipStaging: true})
 	defer sess.Install(nil, nil)
 	r := &runner{env: env, base: base, sc: sc}
 	g := tree.DefaultGen
@@ -238,8 +304,11 @@ func TestScriptedController(t *testing.T) {
 		c := &Case{Anc: tree.ToJ(anc), Alpha: tree.ToJ(a), Beta: tree.ToJ(b)}
 		c.Mode = int32(rapid.SampledFrom(rec01.Modes).Draw(rt, "mode"))
 		c.Outcomes = rapid.SliceOfN(rapid.IntRange(0, 40), 12, 12).Draw(rt, "outcomes")
-		if rapid.IntRange(0, 5).Draw(rt, "fail") == 0 {
+		switch rapid.IntRange(0, 7).Draw(rt, "fail") {
+		case 0:
 			c.FailSide = rapid.SampledFrom([]string{"alpha", "beta"}).Draw(rt, "fail.side")
+		case 1, 2:
+			c.PauseSide = rapid.SampledFrom([]string{"alpha", "beta"}).Draw(rt, "pause.side")
 		}
 		v, nt, class := r.run(c)
 		rec.Eval()
@@ -248,9 +317,9 @@ func TestScriptedController(t *testing.T) {
 		}
 		rec.Class(class)
 		if nt {
-			rec.NonTrivial(ev.Hash(tree.Render(anc), tree.Render(a), tree.Render(b), fmt.Sprint(c.Mode, c.Outcomes, c.FailSide)))
+			rec.NonTrivial(ev.Hash(tree.Render(anc), tree.Render(a), tree.Render(b), fmt.Sprint(c.Mode, c.Outcomes, c.FailSide, c.PauseSide)))
 			if rec.WantSample() {
-				rec.Sample(map[string]any{"ancestor": tree.Render(anc), "alpha": tree.Render(a), "beta": tree.Render(b), "mode": c.Mode, "outcomes": c.Outcomes, "failing_side": c.FailSide})
+				rec.Sample(map[string]any{"ancestor": tree.Render(anc), "alpha": tree.Render(a), "beta": tree.Render(b), "mode": c.Mode, "outcomes": c.Outcomes, "failing_side": c.FailSide, "paused_during_transition_of": c.PauseSide})
 			}
 		}
 	})
@@ -273,7 +342,7 @@ func TestReplay(t *testing.T) {
 	}
 	defer env.Close()
 	sc := &script{}
-	sess.Install(nil, &sess.Hooks{Scan: sc.scan, Transition: sc.transition, SkipStaging: true})
+	sess.Install(nil, &sess.Hooks{Scan: sc.scan, Transition: sc.transition, OnTransition: sc.onTransition, SkipStaging: true})
 	defer sess.Install(nil, nil)
 	r := &runner{env: env, base: base, sc: sc}
 	if v, _, _ := r.run(&c); v != "" {
